@@ -410,14 +410,14 @@ static void worker(int w, int W, uint64_t start)
         vf_tokenum_run(&e);
     }
     static const int cls[] = { LC_INT8, LC_NEG32, LC_STR, LC_BYT, LC_DBL, LC_TRUE, LC_OBJ, LC_ARR };
-    static const vf_name names[] = { { (const uint8_t *) "", 0 }, { (const uint8_t *) "\0k", 2 }, { (const uint8_t *) "a", 1 }, { (const uint8_t *) "ab", 2 }, { (const uint8_t *) "\x80", 1 } };
+    static const vf_name names[] = { { (const uint8_t *) "", 0 }, { (const uint8_t *) "\0k", 2 }, { (const uint8_t *) "a", 1 }, { (const uint8_t *) "aab", 3 }, { (const uint8_t *) "ab", 2 }, { (const uint8_t *) "\x80", 1 } };
     static vf_gen g;
     memset(&g, 0, sizeof g);
     g.root_kind = VK_OBJ; g.max_tokens = N_BYTES; g.classes = cls; g.nclasses = 8; g.names = names; g.nnames = 3; g.cb = on_doc_bytes;
     vf_gen_run(&g);
     static const int cls2[] = { LC_INT8, LC_INT64, LC_STR, LC_STR0, LC_STRNUL, LC_BYT, LC_BYT0, LC_DBL, LC_FALSE, LC_OBJ, LC_ARR };      /* incl. empty string / empty bytes (data() may be NULL) */
     memset(&g, 0, sizeof g);
-    g.root_kind = VK_OBJ; g.max_tokens = N_TREE; g.classes = cls2; g.nclasses = 11; g.names = names; g.nnames = 5; g.max_obj_depth = 10; g.cb = on_doc_tree;
+    g.root_kind = VK_OBJ; g.max_tokens = N_TREE; g.classes = cls2; g.nclasses = 11; g.names = names; g.nnames = 6; g.max_obj_depth = 10; g.cb = on_doc_tree;
     vf_gen_run(&g);
     /* sibling family: every pair and triple of small sibling subtrees */
     memset(&g, 0, sizeof g);
@@ -492,7 +492,7 @@ int main(int argc, char **argv)
     snprintf(bound, sizeof bound,
              "bytes: every object-framed sequence of <= %d tokens and every unframed sequence of <= 2 tokens (incl. the empty vector) over the %d-token hostile alphabet, every valid "
              "object with <= %d value tokens and ALL its one-deviation mutants, 3 documents over 1000 bytes, each through the 3 deserialize overloads; trees: every object with <= %d "
-             "value tokens over 9 leaf classes (incl. empty string and empty bytes) and keys {\"\", \"\\0k\", \"a\", \"ab\", 0x80}, built through put() in EVERY insertion order of every object's keys; wrapper built with "
+             "value tokens over 9 leaf classes (incl. empty string and empty bytes) and keys {\"\", \"\\0k\", \"a\", \"aab\", \"ab\", 0x80}, built through put() in EVERY insertion order of every object's keys; wrapper built with "
              "-ftrivial-auto-var-init=%s",
              L_TOK, VF_NTOK_HOSTILE, N_BYTES, N_TREE, getenv("VERIF_VARIANT") ? getenv("VERIF_VARIANT") : "zero");
     const char *prev = getenv("VERIF_CXX_PREV");
